@@ -53,7 +53,7 @@ func genC04(rng *rand.Rand, tier string) *core.Plan {
 		case r < 70:
 			p.Ops = append(p.Ops, core.Op{K: "rollup"})
 		case r < 78:
-			p.Ops = append(p.Ops, core.Op{K: "rollup2"}) // two triggers back to back
+			p.Ops = append(p.Ops, core.Op{K: "rollup2", A: int64(rng.Intn(2))}) // two triggers back to back (a=1: from two goroutines at once)
 		case r < 86:
 			p.Ops = append(p.Ops, core.Op{K: "tick"})
 		case r < 92:
@@ -364,11 +364,20 @@ func runC04(c *core.RunCtx) {
 				case "rollup", "rollup2":
 					h.epoch++
 					h.armed = h.crashP > 0
-					h.src.ForceRollup()
-					if op.K == "rollup2" {
-						sim.YieldNow()
+					if op.K == "rollup2" && op.A == 1 {
+						// the store's compaction timer and a manual trigger at the same moment, each in its own goroutine
+						done := 0
+						sim.Spawn("trigger-timer", func() { kv.VerifStoreCompact(h.src); done++ })
+						sim.Spawn("trigger-manual", func() { h.src.ForceRollup(); done++ })
+						sim.Await(func() bool { return done == 2 || h.dead })
+						sim.Fault("parallel-rollup-trigger")
+					} else {
 						h.src.ForceRollup()
-						sim.Fault("overlapping-rollup-trigger")
+						if op.K == "rollup2" {
+							sim.YieldNow()
+							h.src.ForceRollup()
+							sim.Fault("overlapping-rollup-trigger")
+						}
 					}
 					h.awaitIdle()
 					h.armed = false
